@@ -5,6 +5,7 @@ import (
 	"fmt"
 	"strings"
 
+	"verifharness/ref/chunked"
 	"verifharness/ref/http1"
 	"verifharness/ref/httpfield"
 	"verifharness/vkit"
@@ -32,7 +33,19 @@ import (
 //         a field) => the reference re-parses with that tolerance; bfe must
 //         agree with the tolerant reading ("lenient but consistent", counted),
 //         otherwise VIOLATION sig "X:<what differs>";
-//       X is a chunk-grammar class => not judged here (C23 decides those);
+//       X is a chunk-grammar class ("body:..."): a chunked body framed differently
+//         from the RFC grammar moves the start of the next request, so it is judged
+//         here too, with the class names C23 uses:
+//           - the leniencies C23 has on record as known findings (SP/HTAB after the
+//             chunk-size; bare LF, stray CR / CTL, obs-fold and empty-name lines in
+//             the trailer-part) and the excluded corner of C23 (BWS in chunk-ext):
+//             re-parse with exactly that tolerance, bfe must agree with the tolerant
+//             reading (boundaries, body), otherwise VIOLATION "body:X:reinterpreted";
+//           - every other class (chunk-size of 17+ digits / overflow, 0x, sign, empty
+//             line, bare LF / CR line ends, missing CRLF after chunk-data, malformed
+//             extension, trailer names that are not tokens, ...) => VIOLATION sig X
+//             (without the "body:" prefix, i.e. the signature C23 gives the same
+//             behaviour);
 //       anything else => VIOLATION sig X.
 
 type c24Witness struct {
@@ -93,6 +106,43 @@ func c24Tolerate(o *http1.Options, class string) bool {
 		return set(&o.HostCount)
 	}
 	return false
+}
+
+// c24TolerateChunk switches on the tolerance for a chunk-grammar class (given
+// without the "body:" prefix). Only the classes that C23 has on record as known
+// leniencies of bfe (known_findings.json, property C23, state known) and C23's
+// excluded corner (BWS in chunk-ext) have one; false otherwise.
+func c24TolerateChunk(o *http1.Options, class string) bool {
+	set := func(p *bool) bool {
+		if *p {
+			return false
+		}
+		*p = true
+		return true
+	}
+	switch class {
+	case chunked.SizeTrailingWS:
+		return set(&o.Chunked.TrailingWS)
+	case chunked.ExtBWS:
+		return set(&o.Chunked.BWS)
+	case chunked.TrailerPrefix + httpfield.BareLF:
+		return set(&o.Chunked.Trailer.BareLF)
+	case chunked.TrailerPrefix + httpfield.BareCR, chunked.TrailerPrefix + httpfield.InvalidValueByte:
+		return set(&o.Chunked.Trailer.ValueBytes)
+	case chunked.TrailerPrefix + httpfield.ObsFold:
+		return set(&o.Chunked.Trailer.ObsFold)
+	case chunked.TrailerPrefix + httpfield.EmptyName:
+		return set(&o.Chunked.Trailer.EmptyName)
+	}
+	return false
+}
+
+// c24Result is what c24Stream observed, for the per-shape accounting of the
+// generators.
+type c24Result struct {
+	First       string // disposition of request #0: agree-accept | lenient-consistent | both-reject | ref-accept-bfe-reject | violation | capped | panic
+	Agreed      int    // leading requests that both parsers accepted identically
+	BodyReached bool   // the reference got as far as a chunked body in request #0
 }
 
 // c24CLShape refines cl:invalid by the shape of the offending value.
@@ -195,13 +245,13 @@ func bfeErrKind(s string) string {
 	return "other"
 }
 
-// c24Stream judges one stream. It returns the number of requests on which
-// both parsers agreed to accept.
-func c24Stream(r *vkit.Run, stream []byte, cuts []int, readSize int) {
+// c24Stream judges one stream.
+func c24Stream(r *vkit.Run, stream []byte, cuts []int, readSize int) (res c24Result) {
 	w := &c24Witness{Stream: stream, StreamQ: fmt.Sprintf("%q", clipB(stream, 1500)), Cuts: cuts, ReadSize: readSize}
 	var run bfeRun
 	if r.Try(func() interface{} { return w }, func() { run = runBfe(stream, cuts, readSize, 8) }) {
 		r.Evals(1)
+		res.First = "panic"
 		return
 	}
 	if run.Stuck {
@@ -221,7 +271,13 @@ func c24Stream(r *vkit.Run, stream []byte, cuts []int, readSize int) {
 			bfeErr = "body: " + bq.BodyErr
 		}
 		w.Request, w.Offset = k, off
+		first := func(d string) {
+			if k == 0 {
+				res.First = d
+			}
+		}
 		report := func(sig, what, ref string) {
+			first("violation")
 			w.Ref = ref
 			if bq != nil {
 				w.Bfe = map[string]interface{}{"start": bq.Start, "head_end": bq.HeadEnd, "end": bq.End, "method": bq.Method, "target": bq.Target,
@@ -237,6 +293,7 @@ func c24Stream(r *vkit.Run, stream []byte, cuts []int, readSize int) {
 		}
 		if bq == nil && run.Err == "" {
 			// bfe stopped because of the request cap
+			first("capped")
 			return
 		}
 		var opts http1.Options
@@ -247,12 +304,17 @@ func c24Stream(r *vkit.Run, stream []byte, cuts []int, readSize int) {
 				if len(req.Fields) > 0 {
 					nontrivial = true
 				}
+				if k == 0 && req.Framing == http1.FramingChunked {
+					res.BodyReached = true
+				}
 				if !bfeAccepted {
 					if len(tolerated) == 0 {
 						r.Count("ref_accept_bfe_reject", 1)
 						r.Count("ref_accept_bfe_reject:"+bfeErrKind(bfeErr), 1)
+						first("ref-accept-bfe-reject")
 					} else {
 						r.Count("both_reject", 1)
+						first("both-reject")
 					}
 					return
 				}
@@ -278,10 +340,13 @@ func c24Stream(r *vkit.Run, stream []byte, cuts []int, readSize int) {
 				if len(tolerated) == 0 {
 					r.Count("agree_accept", 1)
 					r.Count("agree_accept:"+req.Framing.String(), 1)
+					first("agree-accept")
 				} else {
 					r.Count("lenient_but_consistent", 1)
 					r.Count("lenient_but_consistent:"+strings.Join(tolerated, "+"), 1)
+					first("lenient-consistent")
 				}
+				res.Agreed++
 				if r.WantSample() && k >= 1 && len(stream) < 400 {
 					r.Sample(map[string]interface{}{"stream": fmt.Sprintf("%q", stream), "requests_agreed": k + 1})
 				}
@@ -295,8 +360,12 @@ func c24Stream(r *vkit.Run, stream []byte, cuts []int, readSize int) {
 					nontrivial = true
 				}
 			}
+			if k == 0 && strings.HasPrefix(rej.Class, http1.BodyPrefix) {
+				res.BodyReached = true
+			}
 			if !bfeAccepted {
 				r.Count("both_reject", 1)
+				first("both-reject")
 				return
 			}
 			refS := fmt.Sprintf("tolerated=%v then %v", tolerated, rej)
@@ -326,8 +395,21 @@ func c24Stream(r *vkit.Run, stream []byte, cuts []int, readSize int) {
 				}
 				report(sig, fmt.Sprintf("the reference must reject (%v), bfe accepted: %s", rej, bq), refS)
 				return
+			case rej.Incomplete:
+				// (only reachable under a tolerant reading) the reference still needs bytes
+				// for the body, bfe has accepted a complete request
+				report(c24Culprit(tolerated)+":reinterpreted", fmt.Sprintf("the reference (tolerating %v) needs more bytes (%v) but bfe accepted a complete request ending at %d", tolerated, rej, bq.End), refS)
+				return
 			case strings.HasPrefix(rej.Class, http1.BodyPrefix):
-				r.Count("skipped_chunk_grammar_is_c23", 1)
+				cc := strings.TrimPrefix(rej.Class, http1.BodyPrefix)
+				if c24TolerateChunk(&opts, cc) {
+					// a leniency C23 has on record (or its excluded corner): bfe must at
+					// least frame the request as the tolerant reading does
+					r.Count("c23_recorded_leniency:"+cc, 1)
+					tolerated = append(tolerated, rej.Class)
+					continue
+				}
+				report(cc, fmt.Sprintf("the chunked body deviates from the RFC 7230 4.1 grammar (%v; tolerating %v) and a reference parser rejects the request; bfe accepted it and goes on reading the connection at %d: %s", rej, tolerated, bq.End, bq), refS)
 				return
 			case c24Tolerate(&opts, rej.Class):
 				tolerated = append(tolerated, rej.Class)
@@ -338,6 +420,7 @@ func c24Stream(r *vkit.Run, stream []byte, cuts []int, readSize int) {
 			}
 		}
 	}
+	return
 }
 
 // c24CLShapeRaw finds the Content-Length values in a raw head without relying
